@@ -79,6 +79,7 @@ func (a *mutex[T]) acquire(key T) (mutex *item, found bool) {
 		return mutex, true
 	}
 
+	verifPoint("acquire.missed")
 	a.lock.Lock()
 	mutex, ok = a.items[key]
 	if !ok {
